@@ -96,6 +96,15 @@ type cfg struct {
 	bsz   int
 	cache int
 	n     int
+	pfx   string // a non-default store prefix (replay configuration; "" = the default "headers")
+}
+
+// keyPrefix is the datastore namespace the Store under test writes to.
+func (c cfg) keyPrefix() string {
+	if c.pfx != "" {
+		return "/" + c.pfx + "/"
+	}
+	return prefix
 }
 
 type env struct {
@@ -151,8 +160,11 @@ func (e *env) open() error {
 		e.up = true
 		return nil
 	}
-	s, err := store.NewStore[*vh.Header](e.user,
-		store.WithWriteBatchSize(e.cfg.bsz), store.WithStoreCacheSize(e.cfg.cache), store.WithIndexCacheSize(e.cfg.cache))
+	sopts := []store.Option{store.WithWriteBatchSize(e.cfg.bsz), store.WithStoreCacheSize(e.cfg.cache), store.WithIndexCacheSize(e.cfg.cache)}
+	if e.cfg.pfx != "" {
+		sopts = append(sopts, store.WithStorePrefix(e.cfg.pfx))
+	}
+	s, err := store.NewStore[*vh.Header](e.user, sopts...)
 	if err != nil {
 		return err
 	}
@@ -228,10 +240,10 @@ func bctx() (context.Context, context.CancelFunc) {
 }
 
 func (e *env) classifyKey(k string) (kind string, h int) {
-	if !strings.HasPrefix(k, prefix) {
+	if !strings.HasPrefix(k, e.cfg.keyPrefix()) {
 		return "other", 0
 	}
-	s := strings.TrimPrefix(k, prefix)
+	s := strings.TrimPrefix(k, e.cfg.keyPrefix())
 	switch s {
 	case "head":
 		return "head", 0
@@ -597,6 +609,9 @@ func (e *env) doOp(op map[string]any, idx int, v variant, skipWait, last bool) (
 }
 
 func cfgName(c cfg) string {
+	if c.pfx != "" {
+		return fmt.Sprintf("bsz=%d,cache=%d,ctx=%v,prefix=%s", c.bsz, c.cache, c.ctx, c.pfx)
+	}
 	return fmt.Sprintf("bsz=%d,cache=%d,ctx=%v", c.bsz, c.cache, c.ctx)
 }
 
@@ -690,6 +705,9 @@ func emit(id int, c map[string]any, r runResult, tw, rw *mbt.Writer) {
 func runOnce(t *testing.T, id int, c map[string]any, cacheSz int, v variant, baseEvents []Event) (rr runResult) {
 	hist := mbt.List(c, "hist")
 	cf := cfg{ctx: mbt.Bool(c, "ctx"), bsz: mbt.Int(c, "bsz"), cache: cacheSz, n: mbt.Int(c, "n")}
+	if id%5 == 0 {
+		cf.pfx = "hx" // every fifth behaviour runs under a non-default store prefix (everything the Store writes lives there)
+	}
 	var events []Event
 	var drift []string
 	var fatal string
